@@ -75,6 +75,10 @@ def gen_set(rnd, n):
     if n >= 2 and rnd.random() < .35:          # an exact tie: same rank, different outcome
         j, k = rnd.sample(range(n), 2)
         rules[k].match, rules[k].priority = rules[j].match, rules[j].priority
+    if n >= 2 and rnd.random() < .25:          # the SAME match text under two priorities (a general rule and its "priority: 90" override)
+        j, k = sorted(rnd.sample(range(n), 2))
+        rules[k].match = rules[j].match
+        rules[j].priority, rules[k].priority = rnd.choice([(None, 90), (10, None), (None, 51), (49, 50)])
     if n >= 2 and rnd.random() < .2:           # same rank through different text of the same length
         j, k = rnd.sample(range(n), 2)
         w1, w2 = rnd.choice(['UBER', 'EATS', 'STAR']), rnd.choice(['AMZN', 'MKTP', 'STAR'])
@@ -103,7 +107,15 @@ def gen_set(rnd, n):
 def dominance_pair(rnd, basic=False):
     """Two rules that both match everything in the pool that contains the word; exactly one level decides."""
     w = rnd.choice(['UBER', 'NETFLIX', 'COSTCO', 'STAR'])
-    level = rnd.choice(['priority', 'patterns', 'kinds', 'length'] + ([] if basic else ['kinds-vs-long-text', 'patterns-vs-many-kinds', 'length-non-ascii']))
+    level = rnd.choice(['priority', 'patterns', 'kinds', 'length'] + ([] if basic else ['kinds-vs-long-text', 'patterns-vs-many-kinds', 'length-non-ascii', 'single-kind', 'single-kind']))
+    if level == 'single-kind':
+        # ONE constraint of one kind (each of amount, month, year, day, date, source, field in turn) outranks a longer pattern without any
+        kind = rnd.choice(sorted(CONSTRAINTS))
+        hi = R.Rule('HI', 'contains("%s") and %s' % (w[:2], rnd.choice(CONSTRAINTS[kind])), 'Hi', 'HiSub')
+        lo = R.Rule('LO', 'contains("%s STORE 42")' % w, 'Lo', 'LoSub')
+        rules = [hi, lo]
+        rnd.shuffle(rules)
+        return R.RuleFile(variables=list(PREAMBLE), rules=rules), level + ':' + kind, w
     if level == 'kinds-vs-long-text':
         # one more constraint kind outranks ANY amount of pattern text (100, 101, 250 ... characters of it)
         filler = '|'.join(rnd.choice(WORDS) + rnd.choice(WORDS) for _ in range(rnd.choice([12, 13, 14, 20, 40])))
@@ -246,6 +258,8 @@ def judge_dominance(rec, rnd, tmp):
     if level.startswith('length-non-ascii'):
         txn['description'] = '\u0130' * int(level[-1]) + ' ' + txn['description']
         level = level[:-2]
+    if level.startswith('single-kind'):
+        txn['source'] = txn.get('source') or 'Amex'
     txn['date'] = txn.get('date') or world.DATES[0]
     if not txn.get('field'):
         txn['field'] = {'memo': 'm', 'code': 'c'}
